@@ -22,11 +22,13 @@ func init() {
 var verifCallsMu sync.Mutex
 var verifStepBarrier *sync.WaitGroup
 var verifHold chan struct{}
+var verifHoldEntered chan struct{}
 var verifHoldN int64
 
 func verifPluginSchema(calls *int) *schema.CallableSchema {
 	verifStepBarrier = nil
 	verifHold = nil
+	verifHoldEntered = nil
 	intProp := func() *schema.PropertySchema {
 		return schema.NewPropertySchema(schema.NewIntSchema(nil, nil, nil), nil, true, nil, nil, nil, nil, nil)
 	}
@@ -54,6 +56,9 @@ func verifPluginSchema(calls *int) *schema.CallableSchema {
 					b.Wait()
 				}
 				if h := verifHold; h != nil && in["n"].(int64) == verifHoldN {
+					if e := verifHoldEntered; e != nil {
+						e <- struct{}{} // tells the harness that the run is in flight
+					}
 					<-h // this run stays in flight until the harness releases it
 				}
 				return "ok", map[string]any{"o": in["n"].(int64) + 1}
